@@ -6,7 +6,7 @@ package sm4
 // differently on the tree under test, the driver rebuilds with tag verifnohelpers and the sections that call them
 // directly are skipped (the public API, which is what uses them, is still driven).
 
-const asmHelpersAvailable = true
+const zvAsmHelpersAvailable = true
 
 func vCopyAsm(dst, src *byte, n int) { copyAsm(dst, src, n) }
 
